@@ -283,8 +283,8 @@ fn c12_add_nodes_alias_of_responder() {
 // ---------------------------------------------------------------------------------------------
 
 fn closest_setup(nb: usize) {
-    let s: usize = kani::any();
-    kani::assume(s <= MAX_BUCKETS);
+    // every raw byte is a valid choice (keeps native sanity / fallback replay runs useful)
+    let s: usize = (kani::any::<u8>() % 161) as usize;
     clock::start_fixed();
     let table = symbolic_table_n(nb, 8);
     // target = local id (all zero) with bit s flipped; s = 160: the local id itself
@@ -296,8 +296,7 @@ fn closest_setup(nb: usize) {
     let it = table.closest_nodes(target);
     assert!(it.start_index == s && it.current_index == s, "C09: enumeration does not start at the bucket sharing the target's prefix");
     // sorted buckets are read by their own index, the last bucket only through the assorted list
-    let idx: usize = kani::any();
-    kani::assume(idx < MAX_BUCKETS);
+    let idx: usize = (kani::any::<u8>() % 160) as usize;
     let direct = bucket_iterator(&table.buckets, idx).is_some();
     assert!(direct == (idx + 1 < nb), "C09: a bucket index is read from the wrong bucket");
     match &it.assorted_nodes {
@@ -425,3 +424,26 @@ fn c12_find_node_needs_id_and_address() {
 }
 
 
+
+/// C09, full table (160 buckets): there is no assorted bucket any more - every bucket, including
+/// the last one, is read by its own index exactly once.
+#[kani::proof]
+#[kani::unwind(163)]
+#[kani::stub(std::hash::RandomState::new, crate::verif::stub_random_state_new)]
+fn c09_closest_setup_full_table() {
+    let s: usize = (kani::any::<u8>() % 161) as usize;
+    clock::start_fixed();
+    let mut t = RoutingTable::new(NodeId::from([0u8; 20]));
+    let mut i = 1;
+    while i < MAX_BUCKETS {
+        t.buckets.push(Bucket::new());
+        i += 1;
+    }
+    let target = if s < MAX_BUCKETS { NodeId::from([0u8; 20]).flip_bit(s) } else { NodeId::from([0u8; 20]) };
+    let it = t.closest_nodes(target);
+    assert!(it.start_index == s && it.current_index == s, "C09: enumeration does not start at the bucket sharing the target's prefix");
+    assert!(it.assorted_nodes.is_none(), "C09: a full table still hands out its last bucket a second time as assorted nodes");
+    let idx: usize = (kani::any::<u8>() % 160) as usize;
+    assert!(bucket_iterator(&t.buckets, idx).is_some(), "C09: a bucket of a full table is not read by its index");
+    kani::cover!(true, "end of harness reached");
+}
